@@ -178,6 +178,7 @@ def run(ctx):
             meta.append(("default", pw, ops, members))
     built = sandbox.pmap(_build, jobs, timeout=120)
     reads, rmeta = [], []
+    mode_lines, mode_outs = [], []
     for i, (lab, pw, ops, members) in enumerate(meta):
         (s1, v1), (s2, v2) = built[2 * i], built[2 * i + 1]
         conf = {"chain": lab, "password": pw, "header_ops": ops, "members": [(n, len(d)) for n, d in members]}
@@ -188,6 +189,11 @@ def run(ctx):
         (a1, final), (a2, _) = v1, v2
         ctor = bool(ops) and ops[0] == "ctor"
         want_mode = model_mode(ctor, ops[1:] if ctor else ops)
+        # the same session through the Lean mode machine (Impl.initMode / stepMode / headerForm)
+        sops = ops[1:] if ctor else ops
+        mode_lines.append("aes.mode %d %s" % (1 if ctor else 0, ",".join(sops) if sops else "-"))
+        mode_outs.append("%d %d %s" % (1 if final[0] else 0, 1 if final[1] else 0,
+                                        "encrypted" if final[1] else ("encoded" if final[0] else "raw")))
         if tuple(final) != want_mode:
             if want_mode[1] and not final[1]:
                 # header encryption was asked for and is not in force: the names will be stored readable
@@ -241,6 +247,7 @@ def run(ctx):
                 continue
             reads.append((a1, w))
             rmeta.append((conf, "absent" if w is None else "wrong", members, encrypted_header))
+    ctx.correspond("aes.mode", mode_lines, mode_outs)
     # an APPEND session opened without / with a wrong password on an archive whose header is encrypted: it cannot
     # even list the archive, so it must raise and leave every byte as it was — never start a new archive in its place
     ajobs, ameta = [], []
